@@ -119,32 +119,37 @@ class C08(Check):
             if not (p['kind'] == 'ok' and p['vals'][0] == 0 and p['slot'].startswith('F')):
                 viol.append(dict(key=l, got=o, expected='fails (Kissel table is empty in this tree)', what='empty-table configuration'))
         ntot += len(ls)
-        # (2) regenerated configuration: model vs implementation, and the cascade oracle
-        ctx.build_kissel_config()
+        # (2) regenerated configurations (real Kissel from data/kissel, and a synthetic stress table): model vs
+        #     implementation, and the cascade oracle
         kl = self.kissel_lines(ctx)
-        ck = ctx.run_c(kl, exe=ctx.sc.path('cdrvK'))
-        try:
-            mk = ctx.run_model(kl, dump='dumpK')
-            stats = {}
-            mm = [(l, a, b) for l, a, b in zip(kl, ck, mk) if not core.answers_agree(a, b, stats)]
-            if mm:
-                viol.append(dict(key=mm[0][0], got=mm[0][1], expected='model: ' + mm[0][2], what='regenerated-Kissel configuration: generated model and implementation disagree on %d of %d lines' % (len(mm), len(kl))))
-        except core.BuildError:
-            pass
-        ntot += len(kl)
-        ov, on, nontriv = self.oracle(ctx, kl, ck)
-        viol += ov; ntot += on
+        nontriv = 0; per_cfg = {}
+        for kind in ('real', 'synth'):
+            suf = ctx.build_kissel_config(kind)
+            ck = ctx.run_c(kl, exe=ctx.sc.path('cdrv' + suf))
+            try:
+                mk = ctx.run_model(kl, dump='dump' + suf)
+                stats = {}
+                mm = [(l, a, b) for l, a, b in zip(kl, ck, mk) if not core.answers_agree(a, b, stats)]
+                if mm:
+                    viol.append(dict(key=mm[0][0] + '  @' + kind, got=mm[0][1], expected='model: ' + mm[0][2], what='%s-Kissel configuration: generated model and implementation disagree on %d of %d lines' % (kind, len(mm), len(kl))))
+            except core.BuildError:
+                pass
+            ntot += len(kl)
+            ov, on, nt = self.oracle(ctx, kl, ck, suf)
+            for v in ov: v['key'] = v['key'] if v['key'].startswith('kissel_pe.c') else v['key'] + '  @' + kind
+            viol += ov; ntot += on; nontriv += nt
+            per_cfg[kind] = dict(lines=len(kl), oracle_cases=on, nontrivial=nt, succeeded=sum(1 for o in ck if core.parse_answer(o).get('slot') == 'E'))
         stats = dict(rule='(a) all 16 constant functions x Z x source shells vs name-derived lists, on the raw tables in the prdata process; (b) shipped configuration: every Kissel entry point fails; '
-                          '(c) synthetic-Kissel configuration: 9 shells x 26 line macros x 5 variants x {cm2/g, barn} x 8 energies x Z (every %s) compared with the generated model and with the reference recursion '
+                          '(c) two regenerated configurations (Kissel table rebuilt from data/kissel by tools/regen_kissel.py; synthetic stress table): 9 shells x 26 line macros x 5 variants x {cm2/g, barn} x 8 energies x Z (every %s) compared with the generated model and with the reference recursion '
                           'over the public primitives (Auger terms selected by parsing macro names); non-trivial = shell/line values reproduced by the oracle' % ('Z' if ctx.tier == 'thorough' else '4th Z, seeded offset'),
-                     distinct_nontrivial=nontriv, kissel_config_lines=len(kl),
+                     distinct_nontrivial=nontriv, kissel_config_lines=len(kl), kissel_configs=per_cfg,
                      samples=[dict(call=kl[i], impl=ck[i]) for i in (5, len(kl) // 2, len(kl) - 3)])
         return ntot, viol, stats
 
-    def oracle(self, ctx, kl, ck):
+    def oracle(self, ctx, kl, ck, suf='K'):
         """reference recursion over the public primitives of the real library (regenerated configuration)"""
         n = self.names(ctx)
-        exe = ctx.sc.path('cdrvK')
+        exe = ctx.sc.path('cdrv' + suf)
         Zs = sorted({int(l.split()[1]) for l in kl})
         Es = sorted({unhx(l.split()[-2]) for l in kl if 'FluorShell' in l})
         prim = []
